@@ -104,7 +104,9 @@ def run_model(lines, nproc=NPROC):
     def one(ch):
         if not ch:
             return ""
-        p = run([exe], input="\n".join(ch) + "\n", timeout=1800)
+        # long case lines (thorough tier) recurse deeply in the extracted list functions
+        p = run(["sh", "-c", 'ulimit -s unlimited 2>/dev/null || ulimit -s 4000000 2>/dev/null; exec "$0"', exe],
+                input="\n".join(ch) + "\n", timeout=3000)
         if p.returncode != 0:
             raise RuntimeError("model_run failed: " + p.stderr[-2000:])
         return p.stdout
